@@ -8,13 +8,30 @@ open Demeter M
 
 variable {cx : ACtx} {env : Env}
 
+theorem kcp_checkCanCollateral (c0 : Core) (tok : String) (coll : Bool) : KCP c0 (checkCanCollateral env tok coll) := by
+  unfold checkCanCollateral
+  split
+  · exact Inv.bind (Inv.ofRes _) (fun _ => Inv.require _ _)
+  · exact Inv.pure _
+
+theorem kcp_checkFlag (c0 : Core) (old : Option SupplyInfo) (coll : Bool) : KCP c0 (checkFlag old coll) := by
+  unfold checkFlag
+  split
+  · exact Inv.require _ _
+  · exact Inv.pure _
+
 theorem ekp_supply (c0 : Core) (tok : String) (amount : Rat) (coll : Bool) :
     EKP c0 (supply cx env tok amount coll) := by
   have hwd := ekp_walletDebit (cx := cx) c0 tok amount
-  unfold supply guardOpen commitSupply record setUpdated
-  repeat (first
-    | (refine EKP.bind_nf hwd (R := fun _ => True) (fun _ _ _ _ _ => trivial) (fun _ => ?_); nf_tail)
-    | ek_step)
+  unfold supply guardOpen
+  refine EKP.bind_require (fun _ => EKP.bind_require (fun _ => ?_))
+  refine EKP.bind_kc (kcp_checkCanCollateral c0 tok coll) (fun _ => ?_)
+  refine EKP.bind_ofRes (fun st _ => EKP.bind_ofRes (fun pa _ => ?_))
+  refine EKP.bind_queryPos (fun old _ => ?_)
+  refine EKP.bind_kc (kcp_checkFlag c0 old coll) (fun _ => ?_)
+  refine EKP.bind_nf hwd (R := fun _ => True) (fun _ _ _ _ _ => trivial) (fun _ => ?_)
+  unfold commitSupply record setUpdated
+  nf_tail
 
 theorem ekp_borrow (c0 : Core) (tok : String) (amount? : Option Rat) : EKP c0 (borrow cx env tok amount?) := by
   have hR := readInv_core (cx := cx) (env := env) c0
@@ -22,33 +39,33 @@ theorem ekp_borrow (c0 : Core) (tok : String) (amount? : Option Rat) : EKP c0 (b
   have h5 : KCP c0 (borrowsView cx env) := hR.bo
   have h9 : KCP c0 (healthFactor cx env) := hR.toReadInv3.healthFactor
   have h10 : KCP c0 (maxLtv cx env) := hR.toReadInv3.maxLtv
-  have h11 : KCP c0 (maxBorrowAmount cx env tok) := hR.toReadInv3.maxBorrowAmount tok
+  have h11 : KCP c0 (borrowAmountOf cx env tok amount?) := by
+    unfold borrowAmountOf
+    split
+    · exact Inv.pure _
+    · exact hR.toReadInv3.maxBorrowAmount tok
   unfold borrow guardOpen
   refine EKP.bind_require (fun _ => ?_)
-  dsimp only
-  cases amount? <;> dsimp only <;> refine EKP.bind_kc ?_ (fun amount => ?_)
-  all_goals first
-    | exact Inv.pure _
-    | exact h11
-    | (refine EKP.bind_require (fun _ => ?_)
-       refine EKP.bind_ofRes (fun st _ => ?_)
-       refine EKP.bind_ofRes (fun r _ => ?_)
-       refine EKP.bind_require (fun _ => ?_)
-       refine EKP.bind_kc h3 (fun cv => ?_)
-       refine EKP.bind_require (fun _ => ?_)
-       refine EKP.bind_kc h10 (fun ml => ?_)
-       refine EKP.bind_require (fun _ => ?_)
-       refine EKP.bind_kc h9 (fun hf => ?_)
-       refine EKP.bind_require (fun _ => ?_)
-       refine EKP.bind_ofRes (fun p _ => ?_)
-       refine EKP.bind_kc h5 (fun bv => ?_)
-       refine EKP.bind_ofRes (fun needed _ => ?_)
-       refine EKP.bind_require (fun _ => ?_)
-       refine EKP.bind_ofRes (fun base _ => ?_)
-       refine EKP.bind_queryPos (fun old _ => ?_)
-       refine NFP.ekp ?_
-       unfold commitBorrow record setUpdated
-       nf_tail)
+  refine EKP.bind_kc h11 (fun amount => ?_)
+  refine EKP.bind_require (fun _ => ?_)
+  refine EKP.bind_ofRes (fun st _ => ?_)
+  refine EKP.bind_ofRes (fun r _ => ?_)
+  refine EKP.bind_require (fun _ => ?_)
+  refine EKP.bind_kc h3 (fun cv => ?_)
+  refine EKP.bind_require (fun _ => ?_)
+  refine EKP.bind_kc h10 (fun ml => ?_)
+  refine EKP.bind_require (fun _ => ?_)
+  refine EKP.bind_kc h9 (fun hf => ?_)
+  refine EKP.bind_require (fun _ => ?_)
+  refine EKP.bind_ofRes (fun p _ => ?_)
+  refine EKP.bind_kc h5 (fun bv => ?_)
+  refine EKP.bind_ofRes (fun needed _ => ?_)
+  refine EKP.bind_require (fun _ => ?_)
+  refine EKP.bind_ofRes (fun base _ => ?_)
+  refine EKP.bind_queryPos (fun old _ => ?_)
+  refine NFP.ekp ?_
+  unfold commitBorrow record setUpdated
+  nf_tail
 
 /-! ### withdraw -/
 
@@ -94,12 +111,11 @@ theorem ekp_withdraw (c0 : Core) (tok : String) (amount? : Option Rat) : EKP c0 
     cases h : AList.get? c0.supplies tok with
     | none => rw [h] at hq; cases hq
     | some i => rw [h] at hq; cases hq; rfl
-  dsimp only
+  refine EKP.bind_kc ?_ (fun _ => htail _ _)
+  unfold checkWithdrawHf
   split
-  · refine EKP.bind_ofRes (fun d _ => ?_)
-    refine EKP.bind_kc (kcp_trial hg _) (fun hf => ?_)
-    exact EKP.bind_require (fun _ => htail _ _)
-  · exact htail _ _
+  · exact Inv.bind (Inv.ofRes _) (fun _ => Inv.bind (kcp_trial hg _) (fun _ => Inv.require _ _))
+  · exact Inv.pure _
 
 /-! ### repay -/
 
@@ -119,59 +135,57 @@ theorem divE_ok_ne {a b x : Rat} (h : divE cx a b = .ok x) : b ≠ 0 := by
   intro hb
   simp [hb] at h
 
+theorem inv_borrows_takeRepayment (b : AList String BorrowInfo) (tok ctok : String) (payback : Rat) (withColl : Bool) :
+    Inv (fun s => s.borrows = b) (takeRepayment cx env tok ctok payback withColl) := by
+  unfold takeRepayment
+  split
+  · exact Inv.bind (Inv.ofRes _) (fun _ => Inv.bind (inv_borrows_subSupplyAmount b _ _) (fun _ => Inv.pure _))
+  · intro s hs
+    unfold walletDebit
+    split <;> exact hs
+
+theorem ekp_takeRepayment (c0 : Core) (tok ctok : String) (payback : Rat) (withColl : Bool) :
+    EKP c0 (takeRepayment cx env tok ctok payback withColl) := by
+  unfold takeRepayment
+  split
+  · refine EKP.bind_ofRes (fun inColl _ => ?_)
+    exact EKP.bind_nf (ekp_subSupplyAmount c0 _ inColl) (R := fun _ => True) (fun _ _ _ _ _ => trivial) (fun _ => NFP.pure _)
+  · exact ekp_walletDebit c0 tok payback
+
 theorem ekp_repay (c0 : Core) (tok : String) (amount? : Option Rat) (withColl : Bool) (collTok? : Option String) :
     EKP c0 (repay cx env tok amount? withColl collTok?) := by
   have hR := readInv_core (cx := cx) (env := env) c0
   have h4 : KCP c0 (suppliesView cx env) := hR.su
   have h6 : ∀ k, KCP c0 (getSupply cx env k) := fun k => hR.toReadInv3.getSupply k
   have h7 : KCP c0 (getBorrow cx env tok) := hR.toReadInv3.getBorrow tok
-  have hcap : ∀ t c a, KCP c0 (repayCollateralCap cx env t c a) := by
-    intro t c a
-    unfold repayCollateralCap
+  have hcap : ∀ t c a w, KCP c0 (repayAmountOf cx env t c a w) := by
+    intro t c a w
+    unfold repayAmountOf repayCollateralCap
     repeat (first | exact h6 _ | inv_step)
   unfold repay guardOpen lookupBorrow
   refine EKP.bind_require (fun _ => ?_)
   refine EKP.bind_ofRes (fun st hst => ?_)
   refine EKP.bind_kc h7 (fun bv => ?_)
-  dsimp only
-  split <;> refine EKP.bind_kc ?_ (fun payback => ?_)
-  all_goals first
-    | exact hcap _ _ _
-    | exact Inv.pure _
-    | (refine EKP.bind_ofRes (fun pbBase hpb => ?_)
-       have hnz : st.varIdx ≠ 0 := divE_ok_ne hpb
-       refine EKP.bind_require (fun _ => ?_)
-       refine EKP.bind_queryPos (fun info hq => ?_)
-       have hgb : AList.get? c0.borrows tok = some info := by
-         cases h : AList.get? c0.borrows tok with
-         | none => rw [h] at hq; cases hq
-         | some i => rw [h] at hq; cases hq; rfl
-       refine EKP.bind_require (fun _ => ?_)
-       refine EKP.bind_ofRes (fun rr _ => ?_)
-       refine EKP.bind_require (fun _ => ?_)
-       have hf : ∀ (u : Unit), NFP (fun s' => s'.borrows = c0.borrows) (do
-           let debt ← subBorrowAmount cx env tok payback
-           record (.repay tok payback (cx.mul debt st.varIdx))
-           setUpdated) := by
-         intro u s' hs'
-         rw [run_bind, subBorrowAmount_run payback (by rw [hs']; exact hgb) hst hnz]
-         exact ⟨(), rfl⟩
-       first
-       | (refine EKP.bind_ofRes (fun inColl _ => ?_)
-          refine EKP.bind_nf (ekp_subSupplyAmount c0 _ inColl) (R := fun s' => s'.borrows = c0.borrows) ?_ (fun _ => ?_)
-          · intro s hs a s' hrun
-            have := inv_borrows_subSupplyAmount (cx := cx) (env := env) c0.borrows (collTok?.getD tok) inColl s (by rw [← hs]; rfl)
-            rw [hrun] at this; exact this
-          · intro s' hs'
-            exact hf () s' hs')
-       | (refine EKP.bind_nf (ekp_walletDebit c0 tok payback) (R := fun s' => s'.borrows = c0.borrows) ?_ (fun u => hf u)
-          intro s hs a s' hrun
-          have hb : s.borrows = c0.borrows := by rw [← hs]; rfl
-          unfold walletDebit at hrun
-          split at hrun
-          · cases hrun; exact hb
-          · cases hrun
-          · cases hrun))
+  refine EKP.bind_kc (hcap _ _ _ _) (fun payback => ?_)
+  refine EKP.bind_ofRes (fun pbBase hpb => ?_)
+  have hnz : st.varIdx ≠ 0 := divE_ok_ne hpb
+  refine EKP.bind_require (fun _ => ?_)
+  refine EKP.bind_queryPos (fun info hq => ?_)
+  have hgb : AList.get? c0.borrows tok = some info := by
+    cases h : AList.get? c0.borrows tok with
+    | none => rw [h] at hq; cases hq
+    | some i => rw [h] at hq; cases hq; rfl
+  refine EKP.bind_require (fun _ => ?_)
+  refine EKP.bind_ofRes (fun rr _ => ?_)
+  refine EKP.bind_require (fun _ => ?_)
+  refine EKP.bind_nf (ekp_takeRepayment c0 _ _ _ _) (R := fun s' => s'.borrows = c0.borrows) ?_ (fun _ => ?_)
+  · intro s hs a s' hrun
+    have := inv_borrows_takeRepayment (cx := cx) (env := env) c0.borrows tok (collTok?.getD tok) payback withColl s
+      (by rw [← hs]; rfl)
+    rw [hrun] at this; exact this
+  · intro s' hs'
+    rw [run_bind, subBorrowAmount_run payback (by rw [hs']; exact hgb) hst hnz]
+    exact ⟨(), rfl⟩
 
 /-! ### change_collateral (in a coherent state the health-factor evaluation cannot raise) -/
 
